@@ -72,17 +72,17 @@ func nativeRun(eng *Engine, items []replayItem) (map[string]replayResult, error)
 			return nil, err
 		}
 		rel := strings.TrimPrefix(strings.TrimPrefix(pkg, repoMod), "/")
-		ov := map[string]string{filepath.Join("/repo", rel, "zz_verif_replay_test.go"): testFile}
+		ov := map[string]string{filepath.Join(repoDir, rel, "zz_verif_replay_test.go"): testFile}
 		// harness sources: written out from the in-memory overlay
 		for path := range eng.overlay {
-			src := filepath.Join(verifDir, "harness", strings.TrimPrefix(path, "/repo/"))
+			src := filepath.Join(verifDir, "harness", strings.TrimPrefix(path, repoDir+"/"))
 			ov[path] = src
 		}
 		ovb, _ := json.Marshal(map[string]interface{}{"Replace": ov})
 		ovFile := filepath.Join(tmp, fmt.Sprintf("ov%d.json", pi))
 		os.WriteFile(ovFile, ovb, 0o644)
 		cmd := exec.Command("go", "test", "-vet=off", "-count=1", "-timeout", "10m", "-overlay", ovFile, "-run", "^TestVerifReplay$", "./"+rel)
-		cmd.Dir = "/repo"
+		cmd.Dir = repoDir
 		cmd.Env = append(os.Environ(), "GOFLAGS=-mod=mod", "GOPROXY=off")
 		outb, err := cmd.CombinedOutput()
 		if err != nil && firstErr == nil {
